@@ -167,6 +167,7 @@ class SimNet:
         self.nat_of: dict[tuple, NatBox] = {}      # private address -> box
         self.nat_by_ip: dict[str, NatBox] = {}
         self._pump_scheduled = False
+        self.single_step = False
 
     def now(self) -> float:
         return self.loop.time() if self.loop is not None else 0.0
@@ -225,7 +226,11 @@ class SimNet:
     # delivery --------------------------------------------------------------------------------------------
     def _pump(self) -> None:
         self._pump_scheduled = False
-        batch, self.inflight = self.inflight, []
+        if self.single_step:
+            # one delivery per loop iteration: other tasks (e.g. an unload requested by a check) can run in between
+            batch, self.inflight = self.inflight[:1], self.inflight[1:]
+        else:
+            batch, self.inflight = self.inflight, []
         for fl in batch:
             self.deliver(fl)
         if self.inflight and self.auto and self.loop is not None and not self._pump_scheduled:
